@@ -600,7 +600,21 @@ class Body:
         deref = place_has_deref(place)
         if not place["proj"]:
             return base
-        return ("place", base, fields, deref, tuple(_proj_sig(pr) for pr in place["proj"]))
+        proj = tuple(_proj_sig(pr) for pr in place["proj"])
+        # `(a, b).0` -> a : project tuple aggregates so provenance stays precise
+        while base[0] == "agg" and base[1] == "tuple" and proj and proj[0][0] == "field" and proj[0][1] == "(tuple)":
+            idx = int(proj[0][3])
+            if idx >= len(base[3]):
+                break
+            base = base[3][idx]
+            proj = proj[1:]
+            fields = fields[1:]
+            if not proj:
+                return base
+            # merge with an inner place
+            if base[0] == "place":
+                return ("place", base[1], base[2] + fields, base[3] or deref, base[4] + proj)
+        return ("place", base, fields, deref, proj)
 
     def _local_expr(self, n, depth):
         if 1 <= n <= self.arg_count:
